@@ -362,6 +362,12 @@ class Check:
             tail = "" if v.get("found_input", True) else " no-failing-input-found"
             lines.append(f"VIOLATION property={self.pid} replay={rp}{tail}")
             rc = 1
+        # every listed (unrepaired) finding of the property is named on every run, also when this run's
+        # cases did not happen to reproduce it
+        shown = {l.split(" ", 3)[2] for l in lines if l.startswith("KNOWN-FINDING:")}
+        for k in known:
+            if k.get("site") not in shown:
+                lines.append(f"KNOWN-FINDING: property={self.pid} {k.get('site')} {k.get('summary','')} (recorded finding; not reproduced by the cases of this run)")
         for n in self.notes:
             log("note:", n)
         for l in lines:
